@@ -128,7 +128,7 @@ StaticBorrow(o, p, c) ==                                                       \
         /\ p.hd[T(c)].len > MaxInl => (p.hd[T(c)].pc = "static" /\ p.hd[T(c)].pid = c.g)
   \* "popping, truncating and clearing it keep doing so": whatever is left, also when it would fit inline - only an
   \* operation that needs to write or grow moves the handle to its own storage
-  /\ (c.op \in {"pop", "truncate", "clear"} /\ o.hd[T(c)].k = "S" /\ c.cls \in {"ok", "some", "none"}) =>
+  /\ (c.op \in {"pop", "truncate", "clear", "shrink_to"} /\ o.hd[T(c)].k = "S" /\ c.cls \in {"ok", "some", "none"}) =>
         /\ c.dA + c.dR + c.xA = 0
         /\ p.hd[T(c)].k = "S" /\ p.hd[T(c)].pc = o.hd[T(c)].pc /\ p.hd[T(c)].pid = o.hd[T(c)].pid
   /\ (c.op \in CloneOps /\ c.cls = "ok" /\ o.hd[c.g].k = "S") =>
